@@ -42,10 +42,10 @@ def build():
         # fold_many1(get_duration_part, INIT, STEP)(input): uncurried (T-NOM); the two closures keep their real bodies, are named, and
         # get the ensures clause the fold relies on (INIT yields zero; STEP is checked addition: fold_step_ok) - then the chain the
         # combinator guarantees is restated over the texts
-        ("T-NOM", r"(?s)fold_many1\(\s*get_duration_part,\s*\|\|\s*(?P<init>(?:[^,()]|\((?:[^()]|\([^()]*\))*\))*),\s*\|(?P<a>\w+): Option<Duration>, (?P<i>\w+): Option<Duration>\|\s*(?P<body>.*?),?\s*\)\(input\)",
+        ("T-NOM", r"(?s)fold_many(?P<n>[01])\(\s*get_duration_part,\s*\|\|\s*(?P<init>(?:[^,()]|\((?:[^()]|\([^()]*\))*\))*),\s*\|(?P<a>\w+): Option<Duration>, (?P<i>\w+): Option<Duration>\|\s*(?P<body>.*?),?\s*\)\(input\)",
          lambda m: "{ let init__ = || -> (z__: Option<Duration>) ensures z__ matches Some(d) && dur(d) == 0 { " + m.group("init") + " };\n"
                    + "let step__ = |" + m.group("a") + ": Option<Duration>, " + m.group("i") + ": Option<Duration>| -> (s__: Option<Duration>) ensures fold_step_ok(" + m.group("a") + ", " + m.group("i") + ", s__) /*//@C19.period_is_sum_of_parts*/ { "
-                   + m.group("body") + " };\n" + CHAIN_PROOF + " }"),
+                   + m.group("body") + " };\n" + CHAIN_PROOF.replace("$MIN", m.group("n")) + " }"),
     ])})
     u.verify(D, "parse_duration", "duration", props=["C19"], fns={"parse_duration": FnSpec(ret="r", sig="""
     ensures
@@ -69,11 +69,11 @@ def build():
     return u
 
 
-CHAIN_PROOF = """let r__ = crate::nom::fold_many1(get_duration_part, init__, step__, input);
+CHAIN_PROOF = """let r__ = crate::nom::fold_many$MIN(get_duration_part, init__, step__, input);
     proof {
         if let Ok(t) = r__ {
             let (ins, outs, accs) = choose|ins: Seq<&str>, outs: Seq<Option<Duration>>, accs: Seq<Option<Duration>>|
-                crate::nom::fold_chain(get_duration_part, init__, step__, input, t.0, t.1, ins, outs, accs);
+                crate::nom::fold_chain_min($MIN, get_duration_part, init__, step__, input, t.0, t.1, ins, outs, accs);
             let vins = ins.map_values(|s: &str| s@);
             assert forall|i: int| 0 <= i < outs.len() implies part_ok(#[trigger] vins[i], vins[i + 1], outs[i]) by {
                 assert(get_duration_part.ensures((ins[i],), Ok((ins[i + 1], outs[i]))));
